@@ -377,7 +377,11 @@ func c12(c *Ctx) {
 	c.Rule("R8", "E3 ordering + E1 (shared with C02.R6)", "pipeline.produce calls every instrument's compute function and delivers its output: no early exit from the loop over the instruments and no discarding of the output once a delta aggregation has emptied its state — the total of the reported points stays the total of the measurements", 4)
 	rulePipelineProduce(c, mx, "R8")
 	c.Rule("R9", "E1 atomic section (shared with C02.R2)", "every delta collect method empties its map of attribute sets inside the collecting critical section: the limiter counts the sets of the current cycle only, so the first L-1 sets of a cycle keep their identity", 4)
+	// judged on the function that does the work (a delta method that only forwards to the embedded aggregator's)
+	saveFD := c.FollowDelegates
+	c.FollowDelegates = true
 	ruleDeltaAtomic(c, ax, "R9")
+	c.FollowDelegates = saveFD
 
 	// an observable id names exactly the measures of its latest registration: the registry entry is replaced, not extended
 	for _, nm := range []string{"(*pipeline).addInt64Measure", "(*pipeline).addFloat64Measure"} {
